@@ -828,3 +828,39 @@ def fam_near64(rng):
 
 
 FAMILIES['near64'] = fam_near64
+
+
+
+def fam_ulp32(rng):
+    """the `ulp` family in binary32, on either side of x = 0: near-vertical against near-horizontal bars whose corners are a
+    few units in the last place apart, so that division points fall onto the abscissa of a left endpoint (the one-ulp bump of
+    divide_segment, in single precision and for negative abscissae)"""
+    import struct
+
+    def nudge(x, k):
+        b = struct.unpack('>i', struct.pack('>f', x))[0]
+        if x == 0.0:
+            return x
+        b += k if b >= 0 else -k
+        return struct.unpack('>f', struct.pack('>i', b))[0]
+    sgn = rng.choice([1.0, -1.0])
+    x0 = sgn * rng.choice([1.0, 0.3, 13.0, 1000.0])
+    from .fmt import to_f32
+    x0 = to_f32(x0)
+    k = [rng.randrange(-3, 4) for _ in range(8)]
+    a = [(nudge(x0, k[0]), -5.0), (nudge(to_f32(x0 + 1.0), k[1]), -5.0), (nudge(to_f32(x0 + 1.0), k[2]), 5.0), (nudge(x0, k[3]), 5.0)]
+    y0 = rng.choice([0.5, 0.75, -1.5])
+    b = [(to_f32(x0 - 4.0), nudge(y0, k[4])), (to_f32(x0 + 4.0), nudge(y0, k[5])), (to_f32(x0 + 4.0), nudge(y0 + 1.0, k[6])),
+         (to_f32(x0 - 4.0), nudge(y0 + 1.0, k[7]))]
+    if rng.random() < 0.5:
+        # a steep edge between two adjacent binary32 abscissae, cut near its top
+        xe = nudge(x0, 1) if rng.random() < 0.5 else nudge(x0, -1)
+        a = [(x0, 10.0), (xe, 0.0), (to_f32(x0 + sgn * 3.0), 0.0), (to_f32(x0 + sgn * 3.0), 10.0)]
+        if not simple_ring_ok(a):
+            a = [(nudge(x0, k[0]), -5.0), (nudge(to_f32(x0 + 1.0), k[1]), -5.0), (nudge(to_f32(x0 + 1.0), k[2]), 5.0), (nudge(x0, k[3]), 5.0)]
+        yb = rng.choice([9.5, 9.0, 5.0, 0.5])
+        b = [(to_f32(x0 - 4.0), yb), (to_f32(x0 + 4.0), yb), (to_f32(x0 + 4.0), yb + 30.0), (to_f32(x0 - 4.0), yb + 30.0)]
+    return ('M', [[a]]), ('M', [[b]]), {'family': 'ulp32'}
+
+
+FAMILIES['ulp32'] = fam_ulp32
